@@ -228,6 +228,13 @@ def run_case(case, res):
         cfg = extsplit.gen_config(rng, tier, versions=(0, 0, 1, 2), dims=(2, 2, 3), boundary_choices=(True,))
         cfg["a"], cfg["b"] = [0.0] * cfg["d"], [1.0] * cfg["d"]
         M = rng.choice([80, 200, 400]) if cfg["d"] == 2 else rng.choice([300, 600])
+        if cfg["d"] == 2 and rng.random() < 0.35:
+            # high-order local grids switch the automatic extend / split decision to the parent-estimation path
+            cfg["grid"] = "ClenshawCurtis"      # (Gauss-Legendre grids have no boundary points: the interpolation calls of this check do not apply)
+            cfg["boundary"], cfg["single_dim"], cfg["version"] = True, False, 0
+            cfg["automatic"] = rng.random() < 0.7
+            M = rng.choice([80, 200])
+            res.count("high_order_local_grid")
     cfg["profile"] = rng.choice(["real", "real", "geomhash"])
     d = cfg["d"]
     fname, fac = make_function(rng, d)
